@@ -255,6 +255,41 @@ def c05_streams(run, tier, seed):
         pr = raw("low_rom", maps + body, usermap=(0, 0x3f, 0x8000))
         pr["meta"] = (mn, 0, "usermap-ram-mirror", "ram", "low_rom")
         progs.append(pr)
+    # same-bank targets a whole bank size away (64 KiB banks: HiROM, user maps with mask 0x10000): far out of range, never
+    # wrapped into range; and the same logical target under two different user layouts assembled one after the other
+    for k in range(8 if tier == "quick" else 60):
+        mn = rng.choice(mns)
+        bank = 0xC0 + rng.randrange(0, 0x3F)
+        near_end = 0xFFF0 - rng.randrange(0, 0x40)
+        near_start = rng.randrange(0, 0x40)
+        a, b = (near_end, near_start) if k % 2 == 0 else (near_start, near_end)
+        if k % 4 < 2:
+            pr = raw("high_rom", f"*=0x{bank:02x}{a:04x}\n{mn} 0x{bank:02x}{b:04x}\n")
+        else:
+            ub = rng.randrange(0x00, 0x30)
+            maps = f".map identifier=1 bank_range=0x00,0x3f addr_range=0,0xffff mask=0x10000\n"
+            body = f"*=0x{ub:02x}{a:04x}\n" + (".db 1\n@=0x%02x%04x\n" % (ub + 1, a) if k % 8 >= 6 else "") + f"{mn} 0x{(ub + 1 if k % 8 >= 6 else ub):02x}{b:04x}\n"
+            pr = raw("low_rom", maps + body, regions=[(0, 0x3F, 0x10000, False)])
+        pr["meta"] = (mn, 0x10000, "far-same-bank", "far", pr["rom"])
+        progs.append(pr)
+    for k in range(6 if tier == "quick" else 40):
+        mn = rng.choice(mns)
+        tb = rng.choice([0x40, 0x50, 0x60])
+        toff = rng.randrange(0x8000, 0xFF00)
+        as_rom = f".map identifier=1 bank_range=0x00,0x7d addr_range=0x8000,0xffff mask=0x8000\n"
+        as_ram = (f".map identifier=1 bank_range=0x00,0x3f addr_range=0x8000,0xffff mask=0x8000\n"
+                  f".map identifier=2 bank_range=0x{tb:x},0x{tb + 1:x} addr_range=0,0xffff mask=0x10000 writable=1\n")
+        other = f".map identifier=1 bank_range=0x{tb:x},0x{tb + 0xf:x} addr_range=0x8000,0xffff mask=0x8000\n.map identifier=2 bank_range=0x00,0x3f addr_range=0x8000,0xffff mask=0x8000\n"
+        body_rom = f"*=0x{tb:02x}{toff:04x}\nT:\nnop\n{mn} T\n"
+        body_abs = f"*=0x{tb:02x}{toff - 0x20:04x}\n{mn} 0x{tb:02x}{toff:04x}\n"
+        order = [(as_rom, body_rom, [(0, 0x7D, 0x8000, False)], "ok"), (as_ram, f"*=0x008000\n{mn} 0x{tb:02x}{toff:04x}\n", [(0, 0x3F, 0x8000, False), (tb, tb + 1, 0x10000, True)], "ram"),
+                 (other, body_abs, [(tb, tb + 0xF, 0x8000, False), (0, 0x3F, 0x8000, False)], "ok"), (as_rom, body_abs, [(0, 0x7D, 0x8000, False)], "ok")]
+        if k % 2:
+            order = [order[1], order[0], order[3], order[2]]
+        for maps, body, regions, kind in order:
+            pr = raw("low_rom", maps + body, regions=regions)
+            pr["meta"] = (mn, 0, "layouts-in-sequence", "ram-target" if kind == "ram" else "seq", "low_rom")
+            progs.append(pr)
     for pr, r, m in run.run(progs):
         mn, d, place, reloc, rom = pr["meta"]
         s.cases += 1
@@ -268,6 +303,17 @@ def c05_streams(run, tier, seed):
         if reloc in ("ram", "ram-target", "ram-source"):
             if r["status"] == "ok":
                 s.violate(inp, "rejected", "assembled", "a branch whose run address or target lies in RAM-mapped space is encoded")
+            continue
+        if reloc == "far":
+            if r["status"] == "ok":
+                s.violate(inp, "rejected (the target is a whole bank away: displacement far outside -128..127)", b"".join(b for _, b in r["blocks"])[-2:].hex(),
+                          "an out-of-range same-bank displacement is wrapped into range instead of rejected")
+            continue
+        if reloc == "seq":
+            # (the generic oracle above has judged the displacement; here: a valid in-range ROM branch must assemble whatever
+            # layouts earlier programs of the process declared)
+            if r["status"] != "ok":
+                s.violate(inp, "assembled", r.get("exc") or r.get("error"), "an in-range same-bank ROM branch is rejected after programs with other .map layouts were assembled")
             continue
         lsrc = [l for l in pr["src"].split("\n") if l.startswith("*=") or l.startswith("@=")]
         region = int(lsrc[-1][2:], 16)
